@@ -202,6 +202,27 @@ def run(ctx: Context) -> None:
                     if has_count and has_cap:
                         found = True
         ctx.add("R2", f"{c.qualname}::capacity-comparison", found, loop.loc(), "" if found else detail)
+        # a capacity option whose raw value has a sentinel ("0 = number of CPUs") is resolved once
+        # (`self.A = ... self.conf.B or <fallback> ...`); pool-size decisions must use the resolved value
+        resolved: dict[str, tuple[str, ast.AST]] = {}
+        for m in c.all_methods() if hasattr(c, "all_methods") else c.methods.values():
+            for n in walk_no_nested(m.node):
+                if isinstance(n, ast.Assign) and len(n.targets) == 1 and self_attr(n.targets[0]) and isinstance(n.targets[0], ast.Attribute):
+                    for b in ast.walk(n.value):
+                        if isinstance(b, ast.BoolOp) and isinstance(b.op, ast.Or) and isinstance(b.values[0], ast.Attribute) and isinstance(b.values[0].value, ast.Attribute) and b.values[0].value.attr == "conf" and isinstance(b.values[0].value.value, ast.Name) and b.values[0].value.value.id == "self":
+                            resolved[b.values[0].attr] = (n.targets[0].attr, n)
+        for raw, (res, assign) in sorted(resolved.items()):
+            bad = None
+            for mname in reach:
+                m = c.find_method(mname)
+                if m is None:
+                    continue
+                for n in walk_no_nested(m.node):
+                    if isinstance(n, (ast.Compare, ast.BinOp)) and not any(x is n for x in ast.walk(assign)):
+                        for a in ast.walk(n):
+                            if isinstance(a, ast.Attribute) and a.attr == raw and isinstance(a.value, ast.Attribute) and a.value.attr == "conf":
+                                bad = (m, n)
+            ctx.add("R2", f"{c.qualname}::pool-decisions-use-resolved-{res}", bad is None, bad[0].loc(bad[1]) if bad else loop.loc(), "" if bad is None else f"`{ast.unparse(bad[1])[:90]}` uses the raw option self.conf.{raw} (0 means 'number of CPUs') instead of the resolved self.{res}: with the default configuration the pool is never refilled after workers die")
         # R3
         txt = ast.unparse(active.node)
         pos = False
